@@ -91,8 +91,8 @@ def c10_durations(tier, seed):
     if p.returncode != 0:
         res["status"], res["reason"] = "engine_error", (p.stdout + p.stderr)[-500:]
         return res
-    p = subprocess.run(["python3-vt", os.path.join(ROOT, "pyvc", "c10_durations.py"), gpath, dpath, "30" if tier == "quick" else "120"],
-                       cwd=ROOT, capture_output=True, text=True, timeout=3600)
+    p = sh(["python3-vt", os.path.join(ROOT, "pyvc", "c10_durations.py"), gpath, dpath] + (["30", "240"] if tier == "quick" else ["120", "1500"]),
+           900 if tier == "quick" else 3000)
     if p.returncode != 0:
         res["status"], res["reason"] = "engine_error", (p.stdout + p.stderr)[-500:]
         return res
